@@ -106,6 +106,7 @@ def register_runner(kind, fn):
 try:
     import kani_unit
     register_runner("kani", kani_unit.run_kani_for)
+    register_runner("enum", kani_unit.run_enum_for)
 except ImportError:
     pass
 try:
